@@ -128,11 +128,6 @@ impl Acc {
     pub fn has_violation(&self, signature: &str) -> bool {
         self.violations.contains_key(signature)
     }
-    pub fn bump_violation(&mut self, signature: &str) {
-        if let Some(v) = self.violations.get_mut(signature) {
-            v.count += 1;
-        }
-    }
     pub fn assume(&mut self, s: &str) {
         if !self.assumptions.iter().any(|x| x == s) {
             self.assumptions.push(s.to_string());
